@@ -74,6 +74,7 @@ def recipes(iface, tmpfile):
         "big64k": lambda req: mod.PlainTextResponse(b"x" * 65536),
         "big64k+": lambda req: mod.PlainTextResponse(b"y" * 65537),
         "bigstream": lambda req: mod.StreamResponse(stream([b"a" * 40000, b"b" * 40000, b"c" * 51072])),
+        "mixedstream": lambda req: mod.StreamResponse(stream([b"s" * 40, b"L" * 65536, b"t" * 3, b"M" * 70000, b"u"])),
     }
     return out
 
@@ -151,7 +152,13 @@ def raw_apps(iface):
             app.calls += 1
             if shape == "raise_before":
                 raise Boom("before")
-            await send({"type": "http.response.start", "status": 200, "headers": [(b"content-type", b"text/plain"), (b"set-cookie", b"a=1"), (b"set-cookie", b"b=2"), (b"x-multi", b"1"), (b"x-multi", b"2")]})
+            hdrs = [(b"content-type", b"text/plain"), (b"set-cookie", b"a=1"), (b"set-cookie", b"b=Jos\xe9"), (b"x-multi", b"1"), (b"x-multi", b"2")]
+            await send({"type": "http.response.start", "status": 200, "headers": iter(hdrs) if shape == "headers_iter" else hdrs})
+            if shape in ("mixed_sizes", "headers_iter"):
+                chunks = [b"s" * 40, b"L" * 65536, b"t" * 3] if shape == "mixed_sizes" else [b"body"]
+                for i, c in enumerate(chunks):
+                    await send({"type": "http.response.body", "body": c, "more_body": i < len(chunks) - 1})
+                return
             if shape == "raise_after_start":
                 raise Boom("after start")
             n = {"one": 1, "two": 2, "three": 3, "nobody": 0, "raise_after_chunk": 2}[shape]
@@ -165,7 +172,7 @@ def raw_apps(iface):
         app.calls = 0
         app.closed = 0
         return app
-    return {s: (lambda s=s: amk(s)) for s in ("one", "two", "three", "nobody", "raise_before", "raise_after_start", "raise_after_chunk")}
+    return {s: (lambda s=s: amk(s)) for s in ("one", "two", "three", "nobody", "mixed_sizes", "headers_iter", "raise_before", "raise_after_start", "raise_after_chunk")}
 
 
 # ------------------------------------------------------------------ wrappers
